@@ -8,6 +8,7 @@ import (
 	"unicode/utf8"
 
 	"github.com/mithrandie/csvq/lib/option"
+	"github.com/mithrandie/csvq/lib/parser"
 	"github.com/mithrandie/csvq/lib/query"
 	"github.com/mithrandie/csvq/lib/value"
 	"github.com/mithrandie/ternary"
@@ -479,6 +480,39 @@ func runC06(seed int64, n int, dir string, _ []string) {
 					}
 				}
 				o.Count("float_int_agree")
+			}
+		}
+
+		// ---- casting functions, by direct call and through program text ----
+		{
+			cv := g.Val()
+			if g.Intn(3) == 0 {
+				cv = value.NewFloat([]float64{1.5, -1.5, 2.9999, -0.5, 1e18, 9.3e18, -9.3e18, 1e300, math.NaN(), math.Inf(1), 9223372036854775807, -9223372036854775808}[g.Intn(12)])
+			}
+			fnName := g.Pick("integer", "float", "boolean", "ternary")
+			var fn func(parser.Function, []value.Primary, *option.Flags) (value.Primary, error)
+			switch fnName {
+			case "integer":
+				fn = query.Integer
+			case "float":
+				fn = query.Float
+			case "boolean":
+				fn = query.Boolean
+			default:
+				fn = query.Ternary
+			}
+			res, err := fn(parser.Function{Name: fnName}, []value.Primary{cv}, pr.P.Tx.Flags)
+			if err != nil {
+				o.Law("cast_error", err.Error())
+			} else {
+				o.Case("c06.cast "+fnName+" "+hc.EncProfile(cv), hc.EncVal(res))
+				o.NonTrivial("cast:" + fnName + hc.ClassName(cv) + hc.EncVal(res)[:1])
+				if lit, ok := sqlLit(cv); ok {
+					r2, err2 := evalRow(pr, strings.ToUpper(fnName)+"("+lit+")")
+					if err2 != nil || hc.EncVal(r2[0]) != hc.EncVal(res) {
+						o.Law("cast_sql_vs_direct", []string{fnName, hc.EncVal(cv), hc.EncVal(res)})
+					}
+				}
 			}
 		}
 
